@@ -782,38 +782,42 @@ func (m *Manager) computeMedianFee() types.Currency {
 	return *m.txpool.medianFee
 }
 
-func (m *Manager) computeParentMap() map[types.Hash256]int {
-	parentMap := make(map[types.Hash256]int)
+// computeParentMap maps the IDs of elements created by pool transactions to
+// the position of the creating transaction. v1 and v2 transactions live in
+// separate slices, so their positions are kept in separate maps.
+func (m *Manager) computeParentMap() (v1, v2 map[types.Hash256]int) {
+	v1 = make(map[types.Hash256]int)
 	for index, txn := range m.txpool.txns {
 		for i := range txn.SiacoinOutputs {
-			parentMap[types.Hash256(txn.SiacoinOutputID(i))] = index
+			v1[types.Hash256(txn.SiacoinOutputID(i))] = index
 		}
 		for i := range txn.SiafundInputs {
-			parentMap[types.Hash256(txn.SiafundClaimOutputID(i))] = index
+			v1[types.Hash256(txn.SiafundClaimOutputID(i))] = index
 		}
 		for i := range txn.SiafundOutputs {
-			parentMap[types.Hash256(txn.SiafundOutputID(i))] = index
+			v1[types.Hash256(txn.SiafundOutputID(i))] = index
 		}
 		for i := range txn.FileContracts {
-			parentMap[types.Hash256(txn.FileContractID(i))] = index
+			v1[types.Hash256(txn.FileContractID(i))] = index
 		}
 	}
+	v2 = make(map[types.Hash256]int)
 	for index, txn := range m.txpool.v2txns {
 		txid := txn.ID()
 		for i := range txn.SiacoinOutputs {
-			parentMap[types.Hash256(txn.SiacoinOutputID(txid, i))] = index
+			v2[types.Hash256(txn.SiacoinOutputID(txid, i))] = index
 		}
 		for _, sfi := range txn.SiafundInputs {
-			parentMap[types.Hash256(types.SiafundOutputID(sfi.Parent.ID).V2ClaimOutputID())] = index
+			v2[types.Hash256(types.SiafundOutputID(sfi.Parent.ID).V2ClaimOutputID())] = index
 		}
 		for i := range txn.SiafundOutputs {
-			parentMap[types.Hash256(txn.SiafundOutputID(txid, i))] = index
+			v2[types.Hash256(txn.SiafundOutputID(txid, i))] = index
 		}
 		for i := range txn.FileContracts {
-			parentMap[types.Hash256(txn.V2FileContractID(txid, i))] = index
+			v2[types.Hash256(txn.V2FileContractID(txid, i))] = index
 		}
 	}
-	return parentMap
+	return
 }
 
 func updateTxnProofs(txn *types.V2Transaction, updateElementProof func(*types.StateElement), numLeaves uint64) (valid bool) {
@@ -1130,7 +1134,7 @@ func (m *Manager) UnconfirmedParents(txn types.Transaction) []types.Transaction 
 	defer m.mu.Unlock()
 	m.revalidatePool()
 
-	parentMap := m.computeParentMap()
+	parentMap, _ := m.computeParentMap()
 	var parents []types.Transaction
 	seen := make(map[int]bool)
 	check := func(id types.Hash256) {
@@ -1183,7 +1187,7 @@ func (m *Manager) V2TransactionSet(basis types.ChainIndex, txn types.V2Transacti
 	m.revalidatePool()
 
 	// get the transaction's parents
-	parentMap := m.computeParentMap()
+	_, parentMap := m.computeParentMap()
 	var parents []types.V2Transaction
 	seen := make(map[int]bool)
 	check := func(id types.Hash256) {
